@@ -1020,6 +1020,17 @@ func (p *PubSub) processLoop(ctx context.Context) {
 					in.s.Conn().RemotePeer(), in.s.Protocol())
 			}
 		case msg := <-p.sendMsg:
+			// the peer or the author may have been blacklisted while the message was being validated
+			if p.blacklist.Contains(msg.ReceivedFrom) {
+				p.logger.Debug("dropping validated message from blacklisted peer", "peer", msg.ReceivedFrom)
+				p.tracer.RejectMessage(msg, RejectBlacklstedPeer)
+				continue
+			}
+			if p.blacklist.Contains(msg.GetFrom()) {
+				p.logger.Debug("dropping validated message from blacklisted source", "source", msg.GetFrom())
+				p.tracer.RejectMessage(msg, RejectBlacklistedSource)
+				continue
+			}
 			p.publishMessage(msg)
 
 		case batchAndOpts := <-p.sendMessageBatch:
